@@ -111,7 +111,7 @@ PROPS = {
         "trusted_base": ["Model/Cluster.v transcription of flip_each_cluster_rng incl. its exploration order (validated by raw-tape replay: cluster numbering decides which RNG word flips which cluster)"],
     },
     "C06": {
-        "harness_cmd": ["steps", "c10"],
+        "harness_cmd": ["steps", "c10", "rvb"],
         "oracle_props": ["C06"],
         "property_files": ["C06.v"],
         "expected_theorems": ["C06_metropolis_slot_spec", "C06_heatbath_slot_spec", "C06_diagonal_update_keeps_worldline", "C06_refresh_keeps_worldline",
@@ -123,7 +123,7 @@ PROPS = {
         "trusted_base": ["Model/Steps.v, Model/Cluster.v, Model/Loop.v transcriptions validated by whole-call tape replay"],
     },
     "C07": {
-        "harness_cmd": "steps",
+        "harness_cmd": ["steps", "rvb"],
         "oracle_props": ["C07"],
         "property_files": ["C07.v"],
         "expected_theorems": ["C07_sweep_structural_legality", "C07_inserted_ops_are_legal_terms", "C07_zero_weight_never_inserted_metropolis",
